@@ -96,3 +96,36 @@ class ExtractError(Exception):
 
 if __name__ == "__main__":
     print(extract(config=sys.argv[1] if len(sys.argv) > 1 else "dev"))
+
+
+def extract_fixtures():
+    """fact dir of /verif/fixtures (positive fixtures for the zero-count rules)"""
+    fx = os.path.join(VERIF, "fixtures")
+    h = hashlib.sha256()
+    for p in (os.path.join(fx, "src", "lib.rs"), os.path.join(fx, "Cargo.toml"), os.path.join(VERIF, "driver", "src", "main.rs")):
+        with open(p, "rb") as fh:
+            h.update(fh.read())
+    out = os.path.join(BUILD, "facts", "fixtures.%s" % h.hexdigest()[:16])
+    lockp = os.path.join(BUILD, "extract.fixtures.lock")
+    os.makedirs(os.path.join(BUILD, "facts"), exist_ok=True)
+    with open(lockp, "w") as lf:
+        fcntl.flock(lf, fcntl.LOCK_EX)
+        if os.path.exists(os.path.join(out, "OK")):
+            os.utime(out)
+            return out
+        tmp = out + ".tmp"
+        shutil.rmtree(tmp, ignore_errors=True)
+        shutil.rmtree(out, ignore_errors=True)
+        tgt = os.path.join(BUILD, "target-fixtures")
+        r = subprocess.run(
+            [os.path.join(VERIF, "extract.sh"), fx, tmp, tgt, "", "memc-fixtures"],
+            stdout=subprocess.PIPE,
+            stderr=subprocess.PIPE,
+            text=True,
+        )
+        if r.returncode != 0 or not os.path.exists(os.path.join(tmp, "memc_fixtures.lib.json")):
+            raise ExtractError("fixture extraction failed:\n" + r.stderr[-3000:])
+        with open(os.path.join(tmp, "OK"), "w") as fh:
+            fh.write("ok\n")
+        os.rename(tmp, out)
+        return out
